@@ -1287,6 +1287,66 @@ func (x *runner) caseRunts() {
 	}
 }
 
+// caseFloodStalledSocket (C11 "traffic of one peer never stalls another", C05): the socket's send
+// side is stalled (WriteTo blocks: a full send buffer), one peer keeps sending datagrams that each
+// make its session answer at once (duplicates with ACK-no-delay).  The session's output queue fills
+// up; from then on its output must be dropped, never waited for — packetInput runs on the listener's
+// only reading goroutine and under the session's lock.  A second peer must still get through.
+// (No op lines: the output path is not part of the demultiplexer model.)
+func (x *runner) caseFloodStalledSocket() {
+	lconn := memnet.NewConn(memnet.Addr("listener"))
+	l, err := kcp.ServeConn(nil, 0, 0, lconn)
+	if err != nil {
+		panic(err)
+	}
+	defer func() {
+		lconn.Stall(false)
+		l.Close()
+		lconn.Close()
+		kcp.VerifListenerForget(l)
+	}()
+	from, other := memnet.Addr("flood-peer"), memnet.Addr("quiet-peer")
+	first := kcpSeg(0x7001, 81, 0, 32, 0, 0, 0, []byte{1})
+	kcp.VerifListenerPacketInput(l, first, from)
+	l.SetReadDeadline(time.Now().Add(5 * time.Second))
+	s, err := l.AcceptKCP()
+	if err != nil {
+		x.viol("listener-stuck", "flood case: Accept returned "+err.Error())
+		return
+	}
+	defer s.Close()
+	s.SetACKNoDelay(true)
+	lconn.Stall(true)
+	n := 3*2048 + 500
+	x.o.Count("flood:datagrams")
+	done := make(chan int, 1)
+	go func() {
+		i := 0
+		for ; i < n; i++ {
+			kcp.VerifListenerPacketInput(l, first, from) // a duplicate: acknowledged again, at once
+		}
+		done <- i
+	}()
+	select {
+	case <-done:
+	case <-time.After(20 * time.Second):
+		x.viol("listener-stuck", fmt.Sprintf("socket send side stalled, %d duplicates from one peer (each answered at once): Listener.packetInput blocked — the session waits for room in its output queue while holding its lock, on the listener's reading goroutine", n))
+		return
+	}
+	okc := make(chan struct{}, 1)
+	go func() { kcp.VerifListenerPacketInput(l, kcpSeg(0x7002, 81, 0, 32, 0, 0, 0, []byte{2}), other); okc <- struct{}{} }()
+	select {
+	case <-okc:
+		if s2, err := l.AcceptKCP(); err != nil {
+			x.viol("listener-stuck", "flood case: the second peer's first datagram did not produce a session: "+err.Error())
+		} else {
+			defer s2.Close()
+		}
+	case <-time.After(20 * time.Second):
+		x.viol("listener-stuck", "flood case: the second peer's datagram was not processed")
+	}
+}
+
 func Run(o *hx.Out, g *hx.Rng, tier string) {
 	memnet.InertScheduler()
 	kcp.SetEntropy(&memnet.RngReader{G: g.Fork()})
@@ -1323,4 +1383,5 @@ func Run(o *hx.Out, g *hx.Rng, tier string) {
 	}
 	x.caseDial()
 	x.caseRunts()
+	x.caseFloodStalledSocket()
 }
